@@ -278,10 +278,14 @@ val peek : mstate -> nat -> mch -> mev option
 
 type fn =
 | FnTryAcquire
+| FnLock
 | FnLockSlow
+| FnLockAsync
+| FnTryLock
 | FnUnlock
 | FnFixFlags
 | FnWakeNext
+| FnGuardDrop
 | FnFutPoll
 | FnFutFinish
 | FnFutDrop
@@ -296,8 +300,11 @@ type sop =
 | SStore
 | SSwap
 | SCas
+| SCasWeak
 | SFor
 | SFand
+| SFadd
+| SFsub
 | SPark
 | SUnpark
 | SYield
@@ -309,5 +316,7 @@ type svar =
 | SvLocked
 | SvNode
 | SvNone
+
+val call : fn -> ((svar * sop) * ord option) * ord option
 
 val skeleton : (fn * (((svar * sop) * ord option) * ord option) list) list
